@@ -132,6 +132,7 @@ type VC struct {
 	cbVars map[string]*types.Var
 	cbinvV *types.Var
 	clientinvV *types.Var
+	implFacts  map[string]bool
 	frameCache *frameSpec
 	loopWrites map[int]map[string]bool
 	lastWritten map[string]bool
